@@ -81,7 +81,13 @@ func genC02(t *rapid.T) (eqCase, bool, []string) {
 	}
 	r := newRenderer(t)
 	var d *model.V
-	if chance(t, "isset", 75) {
+	if chance(t, "isrel", 12) {
+		// relations (alone or wrapped) are where storage layouts differ most
+		d = g.genSetKind(t, "rel", depth)
+		if chance(t, "wrap", 30) {
+			d = model.Tup("c", d)
+		}
+	} else if chance(t, "isset", 75) {
 		d, _ = g.genSet(t, depth)
 	} else {
 		d = g.genVal(t, depth)
@@ -94,7 +100,12 @@ func genC02(t *rapid.T) (eqCase, bool, []string) {
 	pctA, pctB := pick(t, "pa", 0, 40, 70), pick(t, "pb", 40, 70)
 	p1 := r.deep(g, d, pctA)
 	nformsA := len(r.forms)
+	if chance(t, "preferjoin", 40) {
+		// relations built by a join have a column layout of their own
+		r.prefer = "join-split"
+	}
 	p2 := r.deep(g, d2, pctB)
+	r.prefer = ""
 	ctx, ctxVal := eqContext(t, g, r, d)
 	src := fmt.Sprintf("let a = %s; let b = %s; (eq: a = b, ne: a != b, rev: b = a, cnt: {a, b} count, key: {a: 1}(b)?:0, "+
 		"repr: //str.repr(a) = //str.repr(b), ctx: %s = %s, ctxrepr: //str.repr(%s) = //str.repr(%s))",
